@@ -315,6 +315,7 @@ func init() {
 			guard(r, func() { ruleSnapshotComplete(r) })
 			guard(r, func() { ruleL5emit(r) }) // a commit applied before Snapshot returned and recorded nowhere is a row that differs after Restore
 			guard(r, func() { ruleExactReads(r) })
+			guard(r, func() { ruleSnapshotCleanup(r) }) // a recorder detached by another snapshot call: commits recorded nowhere
 		}})
 	register(&PropSpec{ID: "C08",
 		Explanation: "Snapshot under concurrent commits is a consistent cut — structural part. (L5.id) the commit id is drawn, stored and handed on while the block's exclusive latch is held (so per block id order = apply order for all schedules); (L5.emit) the recorder append and the recording test happen under that latch; (C08.read) the snapshot reads id, fill slice and columns of a block under the block latch and the collection mutex; (C08.order) recorder opened before the state is written, log copied after; (C08.replay) restore replays exactly the commits whose id is not below the block's stored id; (C02.isolation) the fill slice read contains only committed rows; (L4) commit-id table discipline." + staticNote,
@@ -350,6 +351,7 @@ func init() {
 			guard(r, func() { ruleSerialisersReadOnly(r) })
 			guard(r, func() { ruleDecodeFresh(r) })
 			guard(r, func() { ruleLogWriterLocked(r) })
+			guard(r, func() { ruleSnapshotCleanup(r) })
 		}})
 	register(&PropSpec{ID: "C09",
 		Explanation: "Concurrent merges are never lost — structural part. (C01.arms …/Merge/rmw) in every Merge arm the old value is loaded from the element that is stored, merged with the delta read from the buffer, and swapped back into the buffer, inside one Apply body; (L1) every Apply runs under the block's exclusive latch on every call path, so the read-modify-write is atomic per block for all schedules; (C09.queue) every Merge accessor queues the delta and reads nothing." + staticNote,
@@ -368,6 +370,7 @@ func init() {
 			guard(r, func() { ruleCodecFlags(r) })    // a merge that is not encoded (or shifts the offsets of the ones after it) is lost
 			guard(r, func() { ruleCommitUpdates(r) }) // a merge in a buffer that is never visited is lost
 			guard(r, func() { ruleSwapInPlaceSameSize(r) })
+			guard(r, func() { rulePoolRelease(r) }) // a record merge on scratch objects another merge has already taken stores another row's operands
 		}})
 	register(&PropSpec{ID: "C10",
 		Explanation: "No half-applied commit visible on a row — static lock discipline. A closure-sensitive must-hold lockset analysis walks every call path from the exported API (SSA, CHA for interface calls, environment-resolved closures) and decides: (L1) every call that applies a commit to a registered column holds the block's exclusive latch; (L2) every client callback invoked after the cursor was positioned holds the block latch; (C10.shard) the shard locked is the block the critical section works on; (C10.single) markers and all column updates of a block are applied inside one critical section; (L0) lock operations are balanced and pair on the same shard. If these hold no interleaving can place a reader's callback between two column updates of one commit on the row's block." + staticNote,
@@ -520,6 +523,7 @@ func init() {
 			})
 			guard(r, func() { ruleStorageArms(r) }) // the sorted index sees a string merge only through the Put that Swap* rewrites it into
 			guard(r, func() { ruleInitializeFirst(r) })
+			guard(r, func() { ruleL2(r) }) // the scan hands out rows in the order of keys that commits are changing meanwhile (KF10; worse without any lock)
 		}})
 	register(&PropSpec{ID: "C17",
 		Explanation: "Rows expire only after their deadline — structural part only (all timing is not applicable). (C17.guard) edge-dominance in the cleanup: DeleteAt(row) only under ok ∧ now.After(deadline); ExpiresAt/TTL report a deadline only when stored and non-zero; selection With(expire); (C17.write) writers store now+ttl or 0, Extend is a queued merge; (C17.wiring) expire column created at construction, one cleanup goroutine with the configured interval that stops on close; (C09.queue) merge accessors queue deltas." + staticNote,
@@ -562,6 +566,7 @@ func init() {
 			guard(r, func() { ruleQueryPaths(r) }) // the pooled Txn is handed to one caller at a time
 			guard(r, func() { rulePool(r) })
 			guard(r, func() { ruleLogWriterLocked(r) })
+			guard(r, func() { rulePoolRelease(r) })
 		}})
 	register(&PropSpec{ID: "C19",
 		Explanation: "Triggers fire once per committed change with the final value — structural part. (C19.arms) the trigger's Apply loop calls back on every path for Put and Delete, never for Insert/Merge/Skip, one call per operation, with the positioned reader; (C03.twopass) computed pass after the main pass over the rewritten buffer; (C01.arms) every Merge arm swaps ⇒ the trigger sees a Put of the final value; (C03.rowdelete) row deletes reach the trigger's own registry entry once (markers go to cols[0] only); (C02.effects) no Apply outside commit ⇒ nothing on rollback; (C03.order) replay never reorders; (C03.register) CreateTrigger/DropTrigger." + staticNote,
